@@ -825,7 +825,19 @@ impl fmt::Display for Type<'_> {
         type_str.push_str(&comments.to_string());
       }
 
-      if self.type_choices.len() > 2 {
+      // A comment runs to the end of its line, so a choice that follows one
+      // has to start on a new line
+      #[cfg(feature = "ast-comments")]
+      let after_comment = !type_str.ends_with('\n')
+        && self.type_choices[idx - 1]
+          .comments_after_type
+          .as_ref()
+          .map(|c| c.any_non_newline())
+          .unwrap_or(false);
+      #[cfg(not(feature = "ast-comments"))]
+      let after_comment = false;
+
+      if self.type_choices.len() > 2 || after_comment {
         let _ = write!(type_str, "\n\t/ {}", tc.type1);
       } else {
         let _ = write!(type_str, " / {}", tc.type1);
